@@ -15,5 +15,9 @@ ok, log = common.regen()
 print(log)
 rc, out = common.build()
 print(out[-3000:])
-sys.exit(0 if rc == 0 else 1)
+# A proof that no longer builds is a finding of the individual check (which rebuilds its own
+# targets and reports it with a replay), not a reason to run no check at all.
+if rc != 0:
+    print('setup: the full build did not complete; the checks will report which obligations are broken')
+sys.exit(0)
 PY
